@@ -120,7 +120,13 @@ def orientation_semantics(repo, col):
                  "POSSIBLE_AXIS_ORIENTATIONS"):
         if m.const(name) is None:
             raise AnalysisError("anchor vanished: %s" % name)
-        tables[name] = ast.literal_eval(m.const(name))
+        try:
+            tables[name] = ast.literal_eval(m.const(name))
+        except (ValueError, TypeError, SyntaxError):
+            col.add("E-ORIENT", fn, "orientation tables", True,
+                    "%s is computed, not a literal: the re-orientation is not "
+                    "evaluated over the 48 codes" % name, undecided=True)
+            return
     params = fn.params
     if "input_orientation" not in params:
         raise AnalysisError("anchor vanished: input_orientation parameter")
